@@ -22,7 +22,7 @@ from __future__ import annotations
 import ast
 
 from ..absint import EventAnalysis, run_events
-from ..facts import atoms, call_is, meth_is, simplify, strip
+from ..facts import atoms, call_is, cases, meth_is, simplify, strip
 from ..model import AnalysisError, is_self_attr, norm
 from ..paths import CursorLoop
 from ..reference import lua_property_writes, lua_text
@@ -99,16 +99,28 @@ def run(ctx):
                    fail=f"the {name} setter stores `{show(fv)[:80] if fv else 'nothing'}` in self.{field}")
             uv = rst.env.get(f"{sp}._updated_properties")
             added = None
-            if uv is not None and uv[0] == "mut" and uv[1] == "add" and uv[2] == ("attr", ("param", sp), "_updated_properties"):
-                added = uv[3][0]
+            base_upd = ("attr", ("param", sp), "_updated_properties")
+
+            def added_of(u):
+                """the id added on every path: add(x) / add(a) if c else add(b) -> x / (a if c else b)"""
+                if u is None:
+                    return None
+                if u[0] == "mut" and u[1] == "add" and u[2] == base_upd and len(u[3]) == 1:
+                    return u[3][0]
+                if u[0] == "ite":
+                    a_, b_ = added_of(u[2]), added_of(u[3])
+                    return ("ite", u[1], a_, b_) if a_ is not None and b_ is not None else None
+                return None
+            added = added_of(uv)
             if added is None:
                 ctx.ob("C16.a", st.qual, False, "", func=st.qual, file=st.module.rel, construct=f"{name}.setter id record",
                        fail=f"the {name} setter does not record a changed property id on every path (the next apply will not transmit it)")
                 continue
             sup = ("attr", ("param", sp), "_supported_properties")
             if name in ("breeze_away", "breezeless"):
-                ok = added[0] == "ite" and strip(added[1]) == ("cmp", "in", ("enum", PID, "BREEZE_CONTROL", ids["BREEZE_CONTROL"]), sup) \
-                    and enum_name(added[2]) == "BREEZE_CONTROL" and enum_name(added[3]) == legacy
+                adv = ("cmp", "in", ("enum", PID, "BREEZE_CONTROL", ids["BREEZE_CONTROL"]), sup)
+                nadv = ("cmp", "not in", ("enum", PID, "BREEZE_CONTROL", ids["BREEZE_CONTROL"]), sup)
+                ok = added[0] == "ite" and enum_name(strip(simplify(added, [adv]))) == "BREEZE_CONTROL" and enum_name(strip(simplify(added, [nadv]))) == legacy
                 recorded = {"BREEZE_CONTROL", legacy}
             else:
                 ok = enum_name(added) == legacy
@@ -276,29 +288,66 @@ def run(ctx):
     self_e = en.params[0]
     arg0 = ("sub", ("param", "args"), ("const", 0))
     seen_enc = {}
-    for pc, t, node, _st in ens.returns:
-        if node is None:
-            continue
-        facts = atoms(pc)
-        which = None
-        for f in facts:
-            if f[0] == "cmp" and f[1] == "==" and f[2] == ("param", self_e) and enum_name(f[3]):
-                which = enum_name(f[3])
-        lay = flatten(L.layout(t))
-        seen_enc[which or "<other>"] = lay
+    # the encoded value as one gated term; for each id: assume `self == id` (and `self != every other id`) and read the layout
+    # of what remains - whatever the order and nesting of the tests (elif chain, guard clauses, inverted tests)
+    T = ens.return_term()
+    selfp = ("param", self_e)
+    tested = sorted({enum_name(strip(y)) for x in subterms(T) if x[0] == "cmp" and x[1] in ("==", "!=", "is", "is not") for y in (x[2], x[3]) if enum_name(strip(y))})
+    tested_terms = {enum_name(strip(y)): strip(y) for x in subterms(T) if x[0] == "cmp" for y in (x[2], x[3]) if enum_name(strip(y))}
+
+    def facts_for(which):
+        fs = [x for x in subterms(T) if x[0] == "attr" and x[1] == selfp and x[2] == "_supported"]      # (encode of an unsupported id raises)
+        for nme in tested:
+            e = tested_terms[nme]
+            for op_eq, op_ne in (("==", "!="), ("is", "is not")):
+                fs.append(("cmp", op_eq if nme == which else op_ne, selfp, e))
+                fs.append(("cmp", op_eq if nme == which else op_ne, e, selfp))
+        return fs
+
+    def value_leaves(t, conds=()):
+        t = strip(t)
+        if t[0] == "ite":
+            yield from value_leaves(t[2], conds + ((t[1], True),))
+            yield from value_leaves(t[3], conds + ((t[1], False),))
+        else:
+            yield conds, t
+    for which in tested + ["<other>"]:
+        tw = simplify(T, facts_for(which))
         ctx.count("encode_leaves")
+        node = en.node
         if which == "BREEZE_AWAY":
-            ok = len(lay) == 1 and isinstance(lay[0], Byte) and lay[0].term == ("ite", arg0, ("const", 2), ("const", 1))
-            ctx.ob("C16.c", en.qual, ok, "BREEZE_AWAY value = 2 (on) / 1 (off)", func=en.qual, file=en.module.rel, node=node, detail={"layout": show_layout(lay)},
-                   fail=f"BREEZE_AWAY is encoded as {show_layout(lay)[:80]} (vendor: on 2 / off 1)")
-        elif which == "IECO":
+            vals = {}
+            shape_ok = True
+            for conds, leaf in value_leaves(tw):
+                lay = flatten(L.layout(leaf))
+                if len(lay) == 1 and isinstance(lay[0], Byte) and strip(lay[0].term) == ("ite", arg0, ("const", 2), ("const", 1)) and not conds:
+                    vals = {True: 2, False: 1}
+                    continue
+                try:
+                    cs_ = cases(tuple((f_, True) for f_ in facts_for(which)) + tuple(conds))
+                except ValueError:
+                    cs_ = []
+                ats = [strip(a) for a in cs_[0]] if len(cs_) == 1 else [strip(a) for a in atoms(conds)]
+                on = [True for a in ats if a == arg0] + [False for a in ats if a == ("un", "not", arg0)]
+                if len(lay) == 1 and isinstance(lay[0], Const) and len(lay[0].b) == 1 and len(on) == 1:
+                    vals[on[0]] = lay[0].b[0]
+                else:
+                    shape_ok = False
+            ok = shape_ok and vals == {True: 2, False: 1}
+            seen_enc[which] = tw
+            ctx.ob("C16.c", en.qual, ok, "BREEZE_AWAY value = 2 (on) / 1 (off)", func=en.qual, file=en.module.rel, construct="encode BREEZE_AWAY", detail={"value": show(tw)[:160]},
+                   fail=f"BREEZE_AWAY is encoded as {show(tw)[:80]} (vendor: on 2 / off 1)")
+            continue
+        lay = flatten(L.layout(tw))
+        seen_enc[which] = lay
+        if which == "IECO":
             ok = total(lay).is_const() and int(total(lay).c) == 13 and len(lay) >= 2 and isinstance(lay[0], Const) and lay[0].b == b"\x00\x01" and isinstance(lay[1], Byte) and lay[1].term == arg0 \
                 and all(isinstance(x, (Zeros, Const)) and (not isinstance(x, Const) or set(x.b) <= {0}) for x in lay[2:])
-            ctx.ob("C16.c", en.qual, ok, "IECO value = 13 bytes: frame 0, number 1, switch, 0 × 10", func=en.qual, file=en.module.rel, node=node, detail={"layout": show_layout(lay)},
+            ctx.ob("C16.c", en.qual, ok, "IECO value = 13 bytes: frame 0, number 1, switch, 0 × 10", func=en.qual, file=en.module.rel, construct="encode IECO", detail={"layout": show_layout(lay)},
                    fail=f"IECO is encoded as {show_layout(lay)[:100]} ({total(lay)} bytes; vendor: 13 bytes 00 01 switch 00…)")
         else:
             ok = len(lay) == 1 and lay[0].kind == "opaque" and lay[0].keyterm == ("slice", ("param", "args"), ("const", 0), ("const", 1), None)
-            ctx.ob("C16.c", en.qual, ok, "other supported ids: one byte = the value", func=en.qual, file=en.module.rel, node=node, detail={"layout": show_layout(lay)},
+            ctx.ob("C16.c", en.qual, ok, f"{which}: one byte = the value", func=en.qual, file=en.module.rel, construct=f"encode {which}", detail={"layout": show_layout(lay)},
                    fail=f"1-byte properties are encoded as {show_layout(lay)[:80]}")
     ctx.ob("C16.c", en.qual, {"BREEZE_AWAY", "IECO", "<other>"} <= set(seen_enc), "encode distinguishes BREEZE_AWAY, IECO and the 1-byte ids", func=en.qual, file=en.module.rel,
            construct="encode dispatch", fail=f"encode dispatch changed: {sorted(seen_enc)}")
@@ -322,25 +371,38 @@ def run(ctx):
     des = summarize(prog, de)
     dp = de.params[1]
     d0, d1 = ("sub", ("param", dp), ("const", 0)), ("sub", ("param", dp), ("const", 1))
-    got = {}
-    for pc, t, node, _st in des.returns:
-        if node is None:
-            continue
-        facts = atoms(pc)
-        which = []
-        for f in facts:
-            if f[0] == "cmp" and f[1] == "==" and f[2] == ("param", de.params[0]) and enum_name(f[3]):
-                which.append(enum_name(f[3]))
-            if f[0] == "cmp" and f[1] == "in" and f[2] == ("param", de.params[0]) and f[3][0] == "list":
-                which += [enum_name(x) for x in f[3][1]]
-        got[tuple(sorted(which)) or ("<other>",)] = t
-        ctx.count("decode_leaves")
-    exp = {("BREEZELESS", "SELF_CLEAN"): ("call", ("ext", "bool"), (d0,), ()), ("BREEZE_AWAY",): ("cmp", "==", d0, ("const", 2)), ("BUZZER",): ("const", None),
-           ("IECO",): ("call", ("ext", "bool"), (d1,), ()), ("<other>",): d0}
+    # the decoded value as one gated term, read under `self == id` for every id the function distinguishes (any test order / form)
+    TD = des.return_term()
+    selfd = ("param", de.params[0])
+    d_terms = {}
+    for x in subterms(TD):
+        if x[0] == "cmp":
+            for y in (x[2], x[3]):
+                ys = strip(y)
+                if enum_name(ys):
+                    d_terms[enum_name(ys)] = ys
+                elif ys[0] in ("list", "tuple", "set"):
+                    for z in ys[1]:
+                        if enum_name(strip(z)):
+                            d_terms[enum_name(strip(z))] = strip(z)
+
+    def dfacts(which):
+        fs = [x for x in subterms(TD) if x[0] == "attr" and x[1] == selfd and x[2] == "_supported"]
+        for nme, e in d_terms.items():
+            for op_eq, op_ne in (("==", "!="), ("is", "is not")):
+                fs.append(("cmp", op_eq if nme == which else op_ne, selfd, e))
+                fs.append(("cmp", op_eq if nme == which else op_ne, e, selfd))
+        return fs
+    exp = {"BREEZELESS": ("call", ("ext", "bool"), (d0,), ()), "SELF_CLEAN": ("call", ("ext", "bool"), (d0,), ()), "BREEZE_AWAY": ("cmp", "==", d0, ("const", 2)),
+           "BUZZER": ("const", None), "IECO": ("call", ("ext", "bool"), (d1,), ()), "<other>": d0}
     for k, want in exp.items():
-        ctx.ob("C16.d", de.qual, got.get(k) == want, f"decode{list(k)} = {show(want)} (inverse of encode on the value byte; iECO switch at data[1], Lua l.2118-2120)", func=de.qual,
-               file=de.module.rel, construct=f"decode {'/'.join(k)}", detail={"got": show(got.get(k)) if got.get(k) else None},
-               fail=f"decode for {list(k)} is `{show(got.get(k)) if got.get(k) else 'missing'}`, expected `{show(want)}`")
+        gotv = strip(simplify(TD, dfacts(k)))
+        ctx.count("decode_leaves")
+        ctx.ob("C16.d", de.qual, gotv == want, f"decode[{k}] = {show(want)} (inverse of encode on the value byte; iECO switch at data[1], Lua l.2118-2120)", func=de.qual,
+               file=de.module.rel, construct=f"decode {k}", detail={"got": show(gotv)[:120]},
+               fail=f"decode for {k} is `{show(gotv)[:100]}`, expected `{show(want)}`")
+    ctx.ob("C16.d", de.qual, set(d_terms) >= {"BREEZELESS", "SELF_CLEAN", "BREEZE_AWAY", "BUZZER", "IECO"}, "decode distinguishes the five special ids", func=de.qual,
+           file=de.module.rel, construct="decode dispatch", fail=f"decode dispatch changed: distinguishes {sorted(d_terms)}")
     # ---------------------------------------------------------------- C16.e
     members = set()
     for nme in ("breeze_away", "breeze_mild", "breezeless"):
@@ -382,4 +444,4 @@ def run(ctx):
     ctx.require_min("completions_after_send", 1)
     ctx.require_min("encode_leaves", 3)
     ctx.require_min("decode_leaves", 5)
-    ctx.require_min("back_edges", 2)
+    ctx.require_min("back_edges", 1)
